@@ -123,8 +123,11 @@ class require:  # pylint: disable=invalid-name
         if contract_checker is None:
             # Wrap the function with a contract checker
             contract_checker = icontract._checkers.decorate_with_checker(func=func)
-
-        result = contract_checker
+            result = contract_checker
+        else:
+            # The contract checker is already on the decorator stack, possibly beneath other decorators;
+            # the decorated function must remain the top of the stack lest those decorators are dropped.
+            result = func
 
         assert self._contract is not None
         icontract._checkers.add_precondition_to_checker(
@@ -324,8 +327,11 @@ class ensure:  # pylint: disable=invalid-name
         if contract_checker is None:
             # Wrap the function with a contract checker
             contract_checker = icontract._checkers.decorate_with_checker(func=func)
-
-        result = contract_checker
+            result = contract_checker
+        else:
+            # The contract checker is already on the decorator stack, possibly beneath other decorators;
+            # the decorated function must remain the top of the stack lest those decorators are dropped.
+            result = func
 
         assert self._contract is not None
         icontract._checkers.add_postcondition_to_checker(
